@@ -65,6 +65,8 @@ def run(ctx):
     ctx.explanation = __doc__
     ctx.rule = "instances = deciding positions (8) × (must-call, no-other-notion, result-used) + the two negation closures + the six kinds of the table; non-trivial = needs call-graph / def-use / variant specialisation"
     ctx.trusted = ["serde_json::Number::as_f64 returns the numeric value as a double", "IEEE: -0.0 == 0.0"]
+    from . import manifest as _MF
+    _MF.same_library_clause(ctx, "K3.number-model")
     cfgs = ["default"] if ctx.tier == "quick" else ["default", "python", "wasm"]
     for cfg in cfgs:
         facts = ctx.facts(cfg)
